@@ -280,22 +280,29 @@ impl bytes::Buf for SegBuf {
     }
 }
 /// Hands every DATA frame of the inner body on as a segmented buffer (stim.seg bytes per segment, 0 = contiguous).
-pub struct SegBody<B> { pub inner: B, pub seg: usize }
+pub struct SegBody<B> { pub inner: B, pub seg: usize,
+    /// Some(n): the body announces its exact remaining size (what a peer's content-length becomes), n bytes of DATA still to come
+    pub exact_left: Option<u64> }
 impl<B: Body<Data = Bytes, Error = Status> + Unpin> Body for SegBody<B> {
     type Data = SegBuf; type Error = Status;
     fn poll_frame(mut self: Pin<&mut Self>, cx: &mut Context<'_>) -> Poll<Option<Result<http_body::Frame<SegBuf>, Status>>> {
         let seg = self.seg;
-        Pin::new(&mut self.inner).poll_frame(cx).map(|o| o.map(|r| r.map(|f| f.map_data(|d| SegBuf::split(d, seg)))))
+        let r = Pin::new(&mut self.inner).poll_frame(cx);
+        if let (Poll::Ready(Some(Ok(f))), Some(left)) = (&r, self.exact_left) { if let Some(d) = f.data_ref() { self.exact_left = Some(left.saturating_sub(d.len() as u64)); } }
+        r.map(|o| o.map(|r| r.map(|f| f.map_data(|d| SegBuf::split(d, seg)))))
     }
     fn is_end_stream(&self) -> bool { self.inner.is_end_stream() }
-    fn size_hint(&self) -> http_body::SizeHint { self.inner.size_hint() }
+    fn size_hint(&self) -> http_body::SizeHint { match self.exact_left { Some(n) => http_body::SizeHint::with_exact(n), None => self.inner.size_hint() } }
 }
 
 fn decode(stim: &Value, wire: &[u8], dec_enc: Option<CompressionEncoding>, enc_trailers: Option<http::HeaderMap>, ev: &mut Vec<Value>) {
     let limit = lim(&stim["limit_dec"]);
     let (body, after) = make_body(stim, wire, enc_trailers, ev);
     // the decoder is generic over the transport's Buf: DATA frames arrive contiguous or cut into segments of 1..4 bytes
-    let body = SegBody { inner: body, seg: stim["seg"].as_u64().map(|x| x as usize).unwrap_or(wire.len() % 5) };
+    // and a third of the bodies announce their exact size up front, as a peer that sends content-length would
+    let total: u64 = body.items.iter().map(|it| if let BItem::Data(d) = it { d.len() as u64 } else { 0 }).sum();
+    let announce = stim["announce_size"].as_bool().unwrap_or(wire.len() % 3 == 1);
+    let body = SegBody { inner: body, seg: stim["seg"].as_u64().map(|x| x as usize).unwrap_or(wire.len() % 5), exact_left: if announce { Some(total) } else { None } };
     let extra = stim["extra_polls"].as_u64().unwrap_or(3) as usize;
     let max_polls = wire.len() * 2 + 200;
     // the decoder plays the opposite role of the encoder
